@@ -189,6 +189,9 @@ def slots {β : Type} : List (List (List β)) → Nat
 
 def loopFuel3 {β : Type} (mp : List (List (List β))) : Nat := slots mp + 1
 
+/-- members + 1: bound for the loop of `GeometryCollection.Points` (one member further in every iteration) -/
+def loopFuelC {β : Type} (gc : List β) : Nat := gc.length + 1
+
 /-- `for i == len(p[j]) { j++; i = 0 }`, run on the members `p[j:]` -/
 def skip2 {β : Type} (i j : Nat) : List (List β) → Except Fault (Nat × Nat)
   | [] => .error .index
